@@ -144,6 +144,18 @@ BUILDERS = {
     second = deeper(["write"])
     R.update(plan=plan, reg=reg, out=[first, second], failing_fn="write")
 ''',
+    # the user's own module happens to be called uberjob-something: its frames are user frames all the same
+    ("call", "user_call", "module_named_uberjobs"): '''
+    plan = uberjob.Plan(); reg = None
+    node = plan.call(boom); exp = chain_here()
+    R.update(plan=plan, reg=reg, out=node, exp=exp, failing=node)
+''',
+    ("source", "source_read", "module_named_uberjobs"): '''
+    plan = uberjob.Plan(); reg = uberjob.Registry()
+    src = reg.source(plan, S(fail=["read"])); exp = chain_here()
+    node = plan.call(ident, src)
+    R.update(plan=plan, reg=reg, out=node, exp=exp, failing_fn="read")
+''',
     ("run_output", "output_gather"): '''
     plan = uberjob.Plan(); reg = None
     x = plan.call(lambda: [])
@@ -222,13 +234,15 @@ def run_row(arg):
     op, failing, depth, W, repo_src = arg[:5]
     variant = arg[5] if len(arg) > 5 else ""
     with common.scratch("vf-c19-") as d:
-        p = os.path.join(d, f"case_{op}_{failing}_{depth}.py")
+        as_module = variant == "module_named_uberjobs"
+        p = os.path.join(d, "uberjobs_case.py" if as_module else f"case_{op}_{failing}_{depth}.py")
         with open(p, "w") as f:
             f.write(script(op, failing, depth, W, variant))
         env = dict(os.environ)
-        env["PYTHONPATH"] = repo_src
+        env["PYTHONPATH"] = repo_src + (os.pathsep + d if as_module else "")
         env["PYTHONDONTWRITEBYTECODE"] = "1"
-        pr = subprocess.run([sys.executable, "-B", p], capture_output=True, text=True, env=env, timeout=120)
+        cmd = [sys.executable, "-B", "-c", "import uberjobs_case"] if as_module else [sys.executable, "-B", p]
+        pr = subprocess.run(cmd, capture_output=True, text=True, env=env, timeout=120, cwd=d)
     rep = None
     for line in pr.stdout.splitlines():
         if line.startswith("REPORT "):
